@@ -117,7 +117,7 @@ struct HStats {
 
 /// BFS from one initial list. `seed_set` is the canonical set; the reference output of a state is a fresh
 /// builder over the canonical list with the model's settings applied in canonical order.
-fn bfs(ctx: &Ctx, initial: &[String], ops: &[Op], st: &mut HStats, max_states: usize, deep_prefix: usize) {
+fn bfs(ctx: &Ctx, initial: &[String], ops: &[Op], st: &mut HStats, max_states: usize, deep_prefix: usize, probe_prefix: usize) {
     let canon = canonical(initial);
     let mut refcache: HashMap<Cfg, Result<String, String>> = HashMap::new();
     // key = exact real state AND reference-model state: two histories are merged only if the object states are
@@ -182,6 +182,9 @@ fn bfs(ctx: &Ctx, initial: &[String], ops: &[Op], st: &mut HStats, max_states: u
         // thing under test, so it is not assumed: from every state the history is REPLAYED on a brand-new builder,
         // build() is called, then every sequence of up to `post_depth` further operations, then build() again --
         // compared with the fresh canonical build for the settings the model expects.
+        if hops.len() > probe_prefix {
+            continue;
+        }
         let post_depth = if hops.len() <= deep_prefix { 2 } else { 1 };
         let mut suffixes: Vec<Vec<Op>> = ops.iter().map(|o| vec![*o]).collect();
         if post_depth == 2 {
@@ -274,7 +277,7 @@ fn h_engine(ctx: &Ctx) {
     let cap = if thorough { 1_500_000 } else { 150_000 };
     par_for(initials.len(), |i| {
         let mut st = HStats { states: 0, transitions: 0, probes: 0, outcomes: HashSet::new() };
-        bfs(ctx, &initials[i], &ops, &mut st, cap, if thorough { 2 } else { 1 });
+        bfs(ctx, &initials[i], &ops, &mut st, cap, if thorough { 2 } else { 1 }, if thorough { 6 } else { 3 });
         ctx.run.states.fetch_add(st.states, Ordering::Relaxed);
         ctx.run.transitions.fetch_add(st.transitions, Ordering::Relaxed);
         ctx.run.traces.fetch_add(st.states * 3 + st.probes, Ordering::Relaxed);
@@ -294,7 +297,7 @@ fn h_engine(ctx: &Ctx) {
     let thr_inputs: Vec<Vec<String>> = vec![s(&["aabaabaab"]), s(&["xxyzxxyz", "q"]), s(&["ababab ababab", "abab"]), s(&["aaaa", "aaaaaa", "b"])];
     par_for(thr_inputs.len(), |i| {
         let mut st = HStats { states: 0, transitions: 0, probes: 0, outcomes: HashSet::new() };
-        bfs(ctx, &thr_inputs[i], &thr_ops, &mut st, cap, 2);
+        bfs(ctx, &thr_inputs[i], &thr_ops, &mut st, cap, 2, if thorough { 8 } else { 4 });
         ctx.run.states.fetch_add(st.states, Ordering::Relaxed);
         ctx.run.transitions.fetch_add(st.transitions, Ordering::Relaxed);
         ctx.run.traces.fetch_add(st.states * 3 + st.probes, Ordering::Relaxed);
@@ -310,7 +313,7 @@ fn h_engine(ctx: &Ctx) {
     let t = tot.lock().unwrap();
     ctx.run.space(json!({"engine": "H (threshold histories)", "initial_lists": thr_inputs.len(), "operations": thr_ops.iter().map(op_name).collect::<Vec<_>>()}));
     ctx.run.space(json!({"engine": "H (builder call histories, BFS, exact-state dedup on (owned test-case vector, config))", "initial_lists": initials.len(), "operations": ops.iter().map(op_name).collect::<Vec<_>>(), "states": t.0, "transitions": t.1, "distinct_reference_outputs_summed_over_initial_lists": t.2, "observations_per_state": "build, build-twice, clone-build vs fresh canonical build",
-        "post_build_probes": probes.load(Ordering::Relaxed), "post_build_probe_rule": "from every BFS state the history is replayed on a new builder, then build(), then every sequence of 1 (2 when the state's history has at most 1 (quick) / 2 (thorough) operations; always 2 in the threshold engine) further operations, then build() -- because the dedup key cannot see state that build() itself might leave behind"}));
+        "post_build_probes": probes.load(Ordering::Relaxed), "post_build_probe_rule": "from every BFS state whose history has at most 3 (quick) / 6 (thorough) operations (4 / 8 in the threshold engine) the history is replayed on a new builder, then build(), then every sequence of 1 (2 when the state's history has at most 1 (quick) / 2 (thorough) operations; always 2 in the threshold engine) further operations, then build() -- because the dedup key cannot see state that build() itself might leave behind"}));
 }
 
 // ---------------------------------------------------------------- orders
